@@ -369,7 +369,9 @@ def subdivide_loop(vertices, faces, iterations=None):
 
         # beta = 1 / k * (5 / 8 - (3 / 8 + 1 / 4 * np.cos(2 * np.pi / k)) ** 2)
         # simplified with sympy.parse_expr('...').simplify()
-        beta = (40.0 - (2.0 * np.cos(2 * np.pi / k) + 3) ** 2) / (64 * k)
+        # unreferenced vertices have no neighbors and are not moved
+        kn = np.maximum(k, 1)
+        beta = (40.0 - (2.0 * np.cos(2 * np.pi / kn) + 3) ** 2) / (64 * kn)
         even = (
             beta[:, None] * vertices_[neighbors].sum(1)
             + (1 - k[:, None] * beta[:, None]) * vertices
